@@ -154,6 +154,11 @@ sub_diff!(c03_sub_fixed1_b16_n3, i32, 32, 16, 3, 13, 7, [(0, 0), (1, 9), (2, 0),
 // @bound FIXED order 2, 32 bps (full-scale warm-up), block 4, Rice2 method 1 (5-bit parameters), partition order 0
 sub_diff!(c03_sub_fixed2_b32_n4, i32, 32, 32, 4, 14, 7, [(0, 0), (1, 10), (2, 0), (5, 1), (6, 0)]);
 
+// @harness prop=C03,C04 tier=quick expect=pass timeout=600
+// @units decode::read_subframe<32,i32> decode::read_fixed_subframe decode::read_residuals decode::predict
+// @bound FIXED order 1, 16 bps, block 3, Rice2 method 1 at a depth where the encoder never uses it: every 5-bit parameter (incl. >= 16 and the 11111 escape with every width, 0 included), quotients <= 7
+sub_diff!(c03_sub_fixed1_b16_n3_rice2, i32, 32, 16, 3, 13, 7, [(0, 0), (1, 9), (2, 0), (4, 1), (5, 0)]);
+
 // @harness prop=C03,C04 tier=thorough expect=pass timeout=600
 // @units decode::read_subframe<32,i32> decode::read_fixed_subframe decode::read_residuals decode::predict
 // @bound FIXED order 3, 8 bps, block 5, method 0, partition order 0
